@@ -20,13 +20,21 @@ const (
 
 type messageSet []byte
 
-func entriesForMessageSet(basePos int64, ms []byte) []*entry {
+// ErrMalformedMessageSet is returned if a byte string is not a sequence of
+// complete messages, each one a header followed by as many bytes as the header
+// announces.
+var ErrMalformedMessageSet = errors.New("malformed message set")
+
+func entriesForMessageSet(basePos int64, ms []byte) ([]*entry, error) {
 	entries := []*entry{}
 	if len(ms) <= msgSetHeaderLen {
-		return entries
+		return entries, nil
 	}
 	var n int64
 	for len(ms) > 0 {
+		if len(ms) < msgSetHeaderLen {
+			return nil, ErrMalformedMessageSet
+		}
 		var (
 			relPos      = n
 			m           = messageSet(ms)
@@ -35,6 +43,9 @@ func entriesForMessageSet(basePos int64, ms []byte) []*entry {
 			leaderEpoch = m.LeaderEpoch()
 			size        = m.Size()
 		)
+		if size < 0 || int(size) > len(ms)-msgSetHeaderLen {
+			return nil, ErrMalformedMessageSet
+		}
 		entries = append(entries, &entry{
 			Offset:      offset,
 			Timestamp:   timestamp,
@@ -45,7 +56,7 @@ func entriesForMessageSet(basePos int64, ms []byte) []*entry {
 		n += msgSetHeaderLen + int64(size)
 		ms = ms[msgSetHeaderLen+size:]
 	}
-	return entries
+	return entries, nil
 }
 
 func newMessageSetFromProto(baseOffset, basePos int64, msgs []*Message, concurrencyControl bool) (
